@@ -31,6 +31,66 @@ def make(tus):
     return emit.make_interp(tus, symbolic_names=False)
 
 
+_TOKEN = re.compile(r'"(?:[^"\\\n]|\\.)*"|\'(?:[^\'\\\n]|\\.)*\'|[A-Za-z_]\w*|\d[\w\.]*|->|\+\+|--|<<=|>>=|<<|>>|<=|>=|==|!=|&&|\|\||[-+*/%&|^]=|\S')
+
+
+def normalize_emitted(text):
+    """canonical spelling of emitted C for the structural checks: white space is insignificant, `return (e);` is `return e;`,
+    `(T)(x)` with a simple operand is `(T)x`.  Preprocessor lines are kept.  (String literals are left untouched.)"""
+    out_lines = []
+    for line in text.split('\n'):
+        if line.lstrip().startswith('#'):
+            out_lines.append(line.strip())
+            continue
+        toks = _TOKEN.findall(line)
+        # redundant parentheses around a whole return expression
+        if len(toks) >= 4 and toks[0] == 'return' and toks[1] == '(' and toks[-1] == ';' and toks[-2] == ')':
+            depth = 0
+            whole = True
+            for i, t in enumerate(toks[1:-1]):
+                depth += (t == '(') - (t == ')')
+                if depth == 0 and i < len(toks) - 3:
+                    whole = False
+                    break
+            if whole:
+                toks = ['return'] + toks[2:-2] + [';']
+        # (T)(&x) / (T)(x): parentheses around a simple cast operand
+        i = 0
+        res = []
+        while i < len(toks):
+            if toks[i] == ')' and i + 1 < len(toks) and toks[i + 1] == '(' and res and _closes_cast(res):
+                j = i + 2
+                inner = []
+                while j < len(toks) and toks[j] != ')':
+                    inner.append(toks[j])
+                    j += 1
+                if j < len(toks) and inner and all(re.fullmatch(r'[A-Za-z_]\w*|&|->|\.', t) for t in inner) and '(' not in inner:
+                    res.append(')')
+                    res.extend(inner)
+                    i = j + 1
+                    continue
+            res.append(toks[i])
+            i += 1
+        toks = res
+        s_ = ''
+        for t in toks:
+            if s_ and re.match(r'\w', t[0]) and re.match(r'\w', s_[-1]):
+                s_ += ' '
+            s_ += t
+        out_lines.append(s_)
+    return '\n'.join(out_lines)
+
+
+def _closes_cast(res):
+    """the tokens collected so far end in `( type-name` (the `)` just seen closes a cast)"""
+    k = len(res) - 1
+    n = 0
+    while k >= 0 and re.fullmatch(r'[A-Za-z_]\w*|\*', res[k]):
+        k -= 1
+        n += 1
+    return n >= 1 and k >= 0 and res[k] == '(' and (k == 0 or not re.fullmatch(r'[A-Za-z_]\w*', res[k - 1]) or res[k - 1] in ('return',))
+
+
 def emit_text(it, fname, mkargs):
     """run a FILE*-based emitter; mkargs(file Text) -> args"""
     def setup():
@@ -71,8 +131,9 @@ def shape(it, mem='defined', table='defined', nglobals=1, gimports=1, data=('act
                            exports=exports, start=(3 if start else None))
 
 
-def inits_text(it, mk, pretty=0, mode=0):
-    return emit_text(it, 'wasmCWriteInits', lambda out: [Ptr({'v': mk()}, 'v'), 'mod', out, mode, pretty, 0])
+def inits_text(it, mk, pretty=0, mode=0, raw=False):
+    t = emit_text(it, 'wasmCWriteInits', lambda out: [Ptr({'v': mk()}, 'v'), 'mod', out, mode, pretty, 0])
+    return t if raw else normalize_emitted(t)
 
 
 def split_functions(text):
@@ -189,19 +250,22 @@ def check_data_arrays(chk, it):
 
 def check_members_and_imports(chk, it):
     mk = shape(it, mem='imported', table='imported', nglobals=2, gimports=1, data=('active',), elems=1, start=True)
-    decl = emit_text(it, 'wasmCWriteModuleDeclarations', lambda out: [out, Ptr({'v': mk()}, 'v'), 'mod', 0, 0, 0])
-    m = re.search(r'typedef struct modInstance \{(.*?)\} modInstance;', decl, re.S)
+    decl = normalize_emitted(emit_text(it, 'wasmCWriteModuleDeclarations', lambda out: [out, Ptr({'v': mk()}, 'v'), 'mod', 0, 0, 0]))
+    m = re.search(r'typedef struct modInstance\s*\{(.*?)\}\s*modInstance;', decl, re.S)
     chk.require(m is not None, 'instance record not emitted: %r' % decl[:200])
     members = [x.strip() for x in m.group(1).split(';') if x.strip()]
     want = ['wasmModuleInstance common', 'wasmMemory*env__memory', 'wasmTable*env__table', 'U32*env__g0', 'U32 g1', 'U32 g2']
-    chk.expect([x.replace('* ', '*') for x in members] == want, 'R06.4', 'instance-members',
+    got_m = [x.replace('* ', '*') for x in members]
+    # member order is immaterial (members are accessed by name) except that `common` must come first: the instance is used
+    # through a pointer to its first member
+    chk.expect(got_m[:1] == want[:1] and sorted(got_m) == sorted(want), 'R06.4', 'instance-members',
                'instance record members are %r; expected imports as pointers and defined globals by value: %r' % (members, want),
                'wasmCWriteModuleInstanceDeclaration')
     mk2 = shape(it, mem='defined', table='defined', nglobals=1, gimports=0, data=('active',), elems=1, start=False)
-    decl2 = emit_text(it, 'wasmCWriteModuleDeclarations', lambda out: [out, Ptr({'v': mk2()}, 'v'), 'mod', 0, 0, 0])
-    m2 = re.search(r'typedef struct modInstance \{(.*?)\} modInstance;', decl2, re.S)
+    decl2 = normalize_emitted(emit_text(it, 'wasmCWriteModuleDeclarations', lambda out: [out, Ptr({'v': mk2()}, 'v'), 'mod', 0, 0, 0]))
+    m2 = re.search(r'typedef struct modInstance\s*\{(.*?)\}\s*modInstance;', decl2, re.S)
     members2 = [x.strip().replace('* ', '*') for x in m2.group(1).split(';') if x.strip()]
-    chk.expect(members2 == ['wasmModuleInstance common', 'wasmMemory*m0', 'wasmTable t0', 'U32 g0'], 'R06.4', 'instance-members-defined',
+    chk.expect(members2[:1] == ['wasmModuleInstance common'] and sorted(members2) == sorted(['wasmModuleInstance common', 'wasmMemory*m0', 'wasmTable t0', 'U32 g0']), 'R06.4', 'instance-members-defined',
                'instance record members are %r' % (members2,), 'wasmCWriteModuleInstanceDeclaration')
     # file-scope objects of the implementation part
     text = inits_text(it, mk)
@@ -257,7 +321,7 @@ def check_members_and_imports(chk, it):
 def check_export_params(chk, it):
     types = [(['i32', 'f64', 'i64'], ['f32'])]
     mk = lambda: M.build(it, types=types, functions=[0], exports=[('calc', KIND_FUNC, 0)])
-    text = emit_text(it, 'wasmCWriteExports', lambda out: [out, Ptr({'v': mk()}, 'v'), 'mod', 1, 0, 0])
+    text = normalize_emitted(emit_text(it, 'wasmCWriteExports', lambda out: [out, Ptr({'v': mk()}, 'v'), 'mod', 1, 0, 0]))
     m = re.search(r'F32 mod_calc\(modInstance\*\s*i,\s*U32 l0,\s*F64 l1,\s*U64 l2\)\s*\{\s*return f0\(i,\s*l0,\s*l1,\s*l2\);\s*\}', text)
     chk.expect(m is not None, 'R06.6', 'export-wrapper-params', 'export wrapper of (i32,f64,i64)->f32 is emitted as %r' % text, 'wasmCWriteFunctionExport')
 
